@@ -270,18 +270,23 @@ def check_tree(ctx, spec, record=True):
 def plan(tier, seed):
     if tier == "quick":
         return [{"task": "trees", "examples": 1400} for _ in range(16)]
-    return [{"task": "trees", "examples": 40000} for _ in range(32)]
+    return [{"task": "trees", "examples": 20000} for _ in range(32)]
 
 
 def run_task(ctx, task, **kw):
     if task != "trees":
         raise core.HarnessError(f"unknown task {task}")
     n = kw["examples"]
-    core.hyp_run(ctx, G.tree(PROFILE, empty_rate=30), lambda s: check_tree(ctx, s), int(n * 0.8), chunk=200)
-    # smaller trees with more empties / xor nodes
-    core.hyp_run(ctx, G.tree(PROFILE, max_depth=3, max_leaves=5, empty_rate=9,
-                             kinds=("and", "or", "one", "most")),
-                 lambda s: check_tree(ctx, s), n - int(n * 0.8), chunk=200, seed_salt=1)
+    # general trees + smaller trees with more empties / xor nodes, interleaved in rounds
+    gens = [(G.tree(PROFILE, empty_rate=30), 0.8),
+            (G.tree(PROFILE, max_depth=3, max_leaves=5, empty_rate=9, kinds=("and", "or", "one", "most")), 0.2)]
+    rounds = max(1, n // 350)
+    for rnd in range(rounds):
+        for gi, (strat, share) in enumerate(gens):
+            if ctx.out_of_time():
+                return
+            k = max(1, int(n * share / rounds))
+            core.hyp_run(ctx, strat, lambda s: check_tree(ctx, s), k, chunk=70, seed_salt=rnd * 2 + gi)
     ctx.note("universe_max", 3 * 3 * 3 * 2 * 4 * 2)
 
 
